@@ -9,7 +9,13 @@
 
 /// Size of the sequence tracking ring buffer (power of 2 for fast modulo).
 /// 16384 entries covers ~5 seconds at 3000 packets/sec.
+#[cfg(not(feature = "verif-model"))]
 pub const SEQ_TRACKING_SIZE: usize = 16384;
+/// Verification size seam (feature `verif-model`, OFF by default): the same ring
+/// code instantiated with 16 slots (still a power of two, so mask / collision /
+/// expiry logic is unchanged) because CBMC cannot hold the 393 KB ring.
+#[cfg(feature = "verif-model")]
+pub const SEQ_TRACKING_SIZE: usize = 16;
 
 /// Mask for fast modulo operation (SIZE - 1 when SIZE is power of 2).
 const SEQ_TRACKING_MASK: usize = SEQ_TRACKING_SIZE - 1;
